@@ -54,6 +54,9 @@ class Check(CheckBase):
                 'concurrent': r.choice([1, 2, 5]),
                 'force': ['shared', 'clone', 'independent', 'shared-of-prev'][i % 4],
             })
+        # the same relationships through the program entry point (python -m replicat in child processes)
+        for i in range(4 if quick else 60):
+            cases.insert(i, {'kind': 'cli', 'seed': random.Random(f'C06/{self.seed}/cli/{i}').randrange(1 << 30), 'timeout': 900})
         return cases
 
     def worker_setup(self):
@@ -77,6 +80,9 @@ class Check(CheckBase):
         return unmet[:6]
 
     def run_case(self, case):
+        if case.get('kind') == 'cli':
+            from .. import cliflow
+            return cliflow.run_case(case['seed'], 'access')
         from .. import hist
         r = random.Random(case['seed'])
         graph = hist.gen_graph(r, True)
